@@ -78,6 +78,84 @@ def mk_sd(ispriv, iswrite, n_fixed=None, remap='sym', arch=7, sec=True, ee_sym=T
     return fn
 
 
+EAE_ = 31
+
+
+def mk_ld(ispriv, iswrite, start=None, final=None, use1=None, sec=True, ee_sym=False, mair='sym', rgn_sym=False,
+          t0sz=None, t1sz=None):
+    """long-descriptor stage-1 walk (TTBCR.EAE = 1, LPAE configuration, not Hyp, no stage 2).
+    start: level the walk starts at (1 / 2, case split on TxSZ<2:1>); final: level of the final descriptor (case split
+    over the descriptor types read); use1: TTBR1 / TTBR0 selected"""
+    def fn(env):
+        from armulator.armv6.arm_exceptions import DataAbortException
+        from armulator.armv6.memory_attributes import MemType
+        cfg, ov = MC.std_cfg(arch=7, sec=sec, vmsa=True, lpae=True)
+        tt = 0x00870087 | (0x3F003F00 if rgn_sym else 0)  # T0SZ, EPD0, T1SZ, EPD1 (+ IRGN/ORGN/SH of the walks)
+        tbase = 1 << EAE_
+        if t0sz is not None:  # case split on the region sizes (the walk's shift amounts become numerals)
+            tt &= ~0x7
+            tbase |= t0sz
+        if t1sz is not None:
+            tt &= ~0x70000
+            tbase |= t1sz << 16
+        sym = {'sctlr': ((1 << EE_) if ee_sym else 0) | (1 << AFE_), 'ttbr0_64': 0xFFFFFFFFF8,
+               'ttbr1_64': 0xFFFFFFFFF8, 'ttbcr': tt}
+        st = {'sctlr': (1 << M_) | (1 << TRE_) | (1 << 22), 'ttbcr': tbase, 'fcseidr': 0}
+        if mair == 'sym':
+            sym['mair0'] = 0xFFFFFFFF
+            sym['mair1'] = 0xFFFFFFFF
+        else:
+            st['mair0'], st['mair1'] = mair
+        m = MC.Machine(env, cfg, ov, thumb=False, mode=('svc' if ispriv else 'usr'), sym_sys=sym, set_sys=st)
+        va = env.var('va', 32)
+        VA = to_bv(va, 32)
+        o = vmsa.translate_v_ld(m.pre, VA, z3.BoolVal(ispriv), z3.BoolVal(iswrite))
+        env.assume(z3.Not(o['unpred']))
+        if start is not None:
+            env.assume(o['start2'] == (start == 2))
+        if final is not None:
+            env.assume(z3.Or(o['f_tr'], o['final'] == final))
+            env.assume(z3.Implies(o['f_tr'], o['level'] == final))
+        if use1 is not None:
+            env.assume(o['use1'] == use1)
+        a = o['attrs']
+        env.assume(z3.Implies(z3.Not(o['fault']), a['sure']))
+        exc = None
+        res = None
+        try:
+            res = m.arm.translate_address(va, ispriv, iswrite, 4, True)
+        except DataAbortException as ex:
+            exc = ex
+        except NotImplementedError as ex:
+            exc = ex
+        cl = []
+        E = m.pre.copy()
+        if exc is not None:
+            # every long-descriptor fault report needs TLBLookupCameFromCacheMaintenance(), an unimplemented hook
+            # of the repository: the outcome "not implemented" is accepted exactly where the architecture faults
+            env.note('outcome', 'fault:' + type(exc).__name__)
+            cl.append(holds('fault (reported or not-implemented) only when the tables deny the access', o['fault']))
+            if isinstance(exc, NotImplementedError):
+                return cl + m.compare(E, skip=('sys.dfar', 'sys.dfsr'))
+            return cl
+        env.note('outcome', 'ok')
+        cl.append(holds('translation succeeds only when the architecture allows the access', z3.Not(o['fault'])))
+        cl.append(eq('physical address (40 bits)', res.paddress.physicaladdress, o['pa'], 40))
+        cl.append(holds('NS', tobool(res.paddress.ns) == o['ns']))
+        ty = {MemType.STRONGLY_ORDERED: vmsa.SO, MemType.DEVICE: vmsa.DEVICE, MemType.NORMAL: vmsa.NORMAL}[
+            res.memattrs.type]
+        cl.append(holds('memory type', a['type'] == ty))
+        nrm = a['normal']
+        for k in ('innerattrs', 'innerhints', 'outerattrs', 'outerhints'):
+            cl.append(holds(k, z3.Implies(nrm, z3.And(core.in_range(getattr(res.memattrs, k), 2),
+                                                      to_bv(getattr(res.memattrs, k), 2) == a[k]))))
+        cl.append(holds('shareable', tobool(res.memattrs.shareable) == a['shareable']))
+        cl.append(holds('outershareable', tobool(res.memattrs.outershareable) == a['outershareable']))
+        cl += m.compare(E)
+        return cl
+    return fn
+
+
 def mk_off(arch=7):
     """MMU off: flat mapping"""
     def fn(env):
